@@ -16,6 +16,10 @@ type where struct {
 	Calling *party // nil in the entry script (nobody called it)
 	Current party
 	ByEntry bool // the entry script itself or a script called directly by it
+	// three-valued reference only: group facts that cannot be read at this place
+	// (of the current / the calling script: all of them, or the listed keys)
+	CurUnreadAll, CallUnreadAll bool
+	CurUnread, CallUnread       []string
 }
 
 type cond struct {
@@ -126,4 +130,183 @@ func witnessed(signers []signer, w where, account util.Uint160) bool {
 		}
 	}
 	return false
+}
+
+// ---- three-valued reference (round 4) ---------------------------------------------
+//
+// "... according to the first rule whose condition matches, evaluated over the
+// real calling and current contracts, their groups ...": where the groups of a
+// contract CANNOT be read (the executing context lacks ReadStates; a stub context
+// whose group methods fail) a Group / CalledByGroup leaf has no value. The
+// reference evaluates a condition strictly left to right with short circuit (the
+// order in which the rule list and the sub-conditions are written): a leaf without
+// a value that IS reached leaves the whole evaluation without a verdict - it turns
+// neither into "matches" nor into "does not match"; leaves that are not reached do
+// not matter. A rule without a verdict ends the rule list without a verdict (it
+// may have been the first one that matches).
+
+const (
+	oFalse = 1 << iota // the check answers false
+	oTrue              // the check answers true
+	oNone              // no verdict: the check fails (FAULT in the VM, error from Match)
+)
+
+func outcomeNames(set int) string {
+	s := ""
+	for i, n := range []string{"false", "true", "error"} {
+		if set&(1<<i) != 0 {
+			if s != "" {
+				s += "|"
+			}
+			s += n
+		}
+	}
+	return s
+}
+
+func b2o(b bool) int {
+	if b {
+		return oTrue
+	}
+	return oFalse
+}
+
+func (w where) curUnreadable(k string) bool  { return w.CurUnreadAll || has(w.CurUnread, k) }
+func (w where) callUnreadable(k string) bool { return w.CallUnreadAll || has(w.CallUnread, k) }
+
+// needsPolicy: does the place contain a question that is knowable without
+// reading anything although the implementation may insist on reading (see eval3).
+func (w where) needsPolicy() bool {
+	return w.Calling == nil && (w.CallUnreadAll || len(w.CallUnread) > 0) || w.CurUnreadAll
+}
+
+// eval3 returns oFalse, oTrue or oNone. lenient decides the one question the
+// property leaves open: in the entry script nobody is the calling contract, so
+// CalledByGroup is false without reading anything - or has no value because the
+// groups cannot be read (both are accepted: allowed = union over the policies).
+func (c *cond) eval3(w where, lenient bool) int {
+	switch c.Op {
+	case "not":
+		switch c.Sub[0].eval3(w, lenient) {
+		case oNone:
+			return oNone
+		case oTrue:
+			return oFalse
+		}
+		return oTrue
+	case "and":
+		for _, s := range c.Sub {
+			if v := s.eval3(w, lenient); v != oTrue {
+				return v // false or no verdict: the rest is not reached
+			}
+		}
+		return oTrue
+	case "or":
+		for _, s := range c.Sub {
+			if v := s.eval3(w, lenient); v != oFalse {
+				return v
+			}
+		}
+		return oFalse
+	case "group":
+		if w.curUnreadable(c.Key) {
+			return oNone
+		}
+	case "bygroup":
+		if w.Calling == nil && w.callUnreadable(c.Key) {
+			if lenient {
+				return oFalse
+			}
+			return oNone
+		}
+		if w.Calling != nil && w.callUnreadable(c.Key) {
+			return oNone
+		}
+	}
+	return b2o(c.holds(w)) // a leaf that can be evaluated
+}
+
+// outcomes3: the set of answers the property accepts for a check of s at w.
+// Between the scope bits (which combine by OR, in no stated order) only this is
+// demanded: a bit that grants and no bit without a value -> true; no bit grants and
+// none lacks a value -> false; no bit grants and one lacks a value -> no verdict;
+// a granting bit next to one without a value -> true or no verdict.
+func (s *signer) outcomes3(w where) int {
+	if s.Global {
+		return oTrue
+	}
+	out := 0
+	for _, lenient := range []bool{false, true} {
+		anyT, anyN := false, false
+		add := func(v int) {
+			anyT = anyT || v == oTrue
+			anyN = anyN || v == oNone
+		}
+		if s.CalledByEntry {
+			add(b2o(w.ByEntry))
+		}
+		if s.CustomContracts {
+			in := false
+			for _, h := range s.Contracts {
+				in = in || h == w.Current.Hash
+			}
+			add(b2o(in))
+		}
+		if s.CustomGroups {
+			switch {
+			case w.CurUnreadAll && len(s.Groups) == 0 && lenient:
+				add(oFalse) // no group is listed: false whatever the manifest says
+			case w.CurUnreadAll:
+				add(oNone)
+			default:
+				in := false
+				for _, g := range s.Groups {
+					in = in || has(w.Current.Groups, g)
+				}
+				add(b2o(in))
+			}
+		}
+		if s.Rules {
+			v := oFalse
+			for _, r := range s.RuleList {
+				x := r.Cond.eval3(w, lenient)
+				if x == oNone {
+					v = oNone
+					break
+				}
+				if x == oTrue {
+					v = b2o(r.Allow) // the first matching rule decides
+					break
+				}
+			}
+			add(v)
+		}
+		switch {
+		case anyT && anyN:
+			out |= oTrue | oNone
+		case anyT:
+			out |= oTrue
+		case anyN:
+			out |= oNone
+		default:
+			out |= oFalse
+		}
+		if !w.needsPolicy() {
+			break
+		}
+	}
+	return out
+}
+
+// witnessed3: the set of accepted outcomes of a check for account at w.
+func witnessed3(signers []signer, w where, account util.Uint160) int {
+	if w.Calling != nil && w.Calling.Hash == account {
+		return oTrue
+	}
+	for i := range signers {
+		if signers[i].Account == account {
+			return signers[i].outcomes3(w)
+		}
+	}
+	return oFalse
 }
